@@ -279,21 +279,13 @@ func (o *vectorOperator) Next(ctx context.Context) ([]model.StepVector, error) {
 	return batch, nil
 }
 
-// drain returns batch, the last batch read from op, to op's pool and reads op
-// to the end of its stream.
+// drain reads op to the end of its stream, unless batch, the last batch read
+// from it, shows that it has ended already.
 func drain(ctx context.Context, op model.VectorOperator, batch []model.StepVector) error {
-	for batch != nil {
-		for _, vector := range batch {
-			op.GetPool().PutStepVector(vector)
-		}
-		op.GetPool().PutVectors(batch)
-
-		var err error
-		if batch, err = op.Next(ctx); err != nil {
-			return err
-		}
+	if batch == nil {
+		return nil
 	}
-	return nil
+	return model.Drain(ctx, op, batch)
 }
 
 func (o *vectorOperator) GetPool() *model.VectorPool {
